@@ -36,6 +36,8 @@ PATTERNS = {
     # blanks at either end of the expression are part of it
     "^-- ": (True, _lit("-- "), False),
     " $": (False, _lit(" "), True),
+    # a line break inside the expression
+    "^a\nb": (True, _lit("a\nb"), False),
 }
 # for each pattern: strings that match / do not match, by length
 PAT_SAMPLES = {
@@ -51,6 +53,7 @@ PAT_SAMPLES = {
     "^.*$": (["", "a", "ab", "a c", "ab\tc", "abcde", "abcdef", "abcdefg"], ["\n", "a\n", "a\nb", "\nabc", "ab\ncd", "abcde\n", "abc\ndef"]),
     "^-- ": (["-- ", "-- x", "-- ab", "-- abc", "-- abcd", "-- -- --"], ["--", "--x", "-- "[:2] + "x", " -- ", "- - x", "x-- y", "--\tabc"]),
     " $": ([" ", "a ", "ab ", "abc ", "a b  ", "abcdef "], ["", "a", " a", "ab", "a b", " abcd", "abcdef\t"]),
+    "^a\nb": (["a\nb", "a\nbc", "a\nbcd", "a\nb\nc", "a\nbbbbb", "a\nb    "], ["ab", "a b", "a\tb", "a\n\tb", "a\n\t\tb", "a\n b", "xa\nb", "a\n\nb"]),
 }
 
 FMT = {"date-time": "FDateTime", "date": "FDate", "time": "FTime", "ipv4": "FIP", "ipv6": "FIP"}
@@ -515,7 +518,7 @@ class Case:
     """One schema (root + $defs in one file), options, and documents: [{'doc': json value, 'cls': tag, 'path': ...}]."""
 
     def __init__(self, cid, schema, docs, minsized=False, only_models=False, caps=None, extra_imports=False, wire="json", fam="",
-                 extra_files=None, no_model=False, resolve_ext=None, argv=None, mappings=None):
+                 extra_files=None, no_model=False, resolve_ext=None, argv=None, mappings=None, tags=None):
         self.cid = cid
         self.schema = schema
         self.docs = docs
@@ -530,6 +533,7 @@ class Case:
         self.resolve_ext = resolve_ext or []
         self.argv = argv or ["s.json"]
         self.mappings = mappings                  # [(id, root type name)]: all in the case's package and file
+        self.tags = tags                          # --tags (None: json, yaml, mapstructure)
         # filled by run_cases
         self.gen_ok = None
         self.build_ok = None
@@ -538,11 +542,13 @@ class Case:
         self.mismatches = []     # (doc index or None, code)
         self.decl_diff = None    # static tie: how the emitted declarations differ from the model
         self.decl_text = None    # the model's declarations (Model/Render.v)
+        self.plan_diff = None    # static tie: how the emitted method bodies differ from the model's validator plans
+        self.plan_text = None
         self.wf = None           # WfP.wf_ty holds of every type the model generates for the case (None: not evaluated)
         self.batch_case = None
 
     def cfg(self):
-        return {"min_sized_ints": self.minsized, "only_models": self.only_models, "capitalizations": self.caps, "tags": ["json", "yaml", "mapstructure"],
+        return {"min_sized_ints": self.minsized, "only_models": self.only_models, "capitalizations": self.caps, "tags": self.tags or ["json", "yaml", "mapstructure"],
                 "extra_imports": self.extra_imports, "resolve_extensions": self.resolve_ext,
                 "mappings": ([{"id": i, "root": r, "package": self.cid, "output": self.cid + "/gen.go"} for i, r in self.mappings] if self.mappings else
                              [{"id": self.schema.get("$id", ""), "root": "Root", "package": self.cid, "output": self.cid + "/gen.go"}])}
@@ -551,6 +557,8 @@ class Case:
         o = {"kind": "kitchen", "cfg": self.cfg(), "files": dict({"s.json": json.dumps(self.schema)}, **self.extra_files), "argv": self.argv, "family": self.fam}
         if self.decl_diff:
             o["declarations_differ"] = self.decl_diff
+        if self.plan_diff:
+            o["method_plans_differ"] = self.plan_diff
         if di is not None:
             d = self.docs[di]
             o.update({"doc": json.dumps(d["doc"]), "class": d.get("cls"), "path": list(d.get("path", ())), "impl": d.get("obs"),
@@ -620,7 +628,8 @@ def run_cases(ctx, cases, name, rows_fn=None, chunk=40):
         text += "Definition VV := Eval vm_compute in all_valid FT cases.\n"
         text += "Definition WF := Eval vm_compute in all_not_wf T cases.\n"
         text += "Definition DD := Eval vm_compute in all_decls T cases.\n"
-        return gi, ctx.coq_lists("%s_%d" % (name, gi), text, ["MM", "VV", "WF", "DD"], timeout=2400)
+        text += "Definition PP := Eval vm_compute in all_plans T cases.\n"
+        return gi, ctx.coq_lists("%s_%d" % (name, gi), text, ["MM", "VV", "WF", "DD", "PP"], timeout=2400)
 
     with cf.ThreadPoolExecutor(max_workers=12) as ex:
         for gi, vals in ex.map(one, range(len(groups))):
@@ -645,6 +654,15 @@ def run_cases(ctx, cases, name, rows_fn=None, chunk=40):
                     if diff:
                         c.mismatches.append((None, 6))
                         c.decl_diff = diff
+            for ci, text in parse_assoc_str(vals["PP"]):
+                c = grp[ci]
+                c.plan_text = text
+                if c.gen_ok and c.scan and not c.mismatches and not any(sc.get("parse_error") for sc in c.scan.values()) \
+                        and not names_deduplicated(c.decl_text or "", c.scan):
+                    diff = plan_diff(text, c.scan, c.schema)
+                    if diff:
+                        c.mismatches.append((None, 7))
+                        c.plan_diff = diff
             for ci, lst in parse_assoc_bool(vals["VV"]):
                 for di, ok in lst:
                     grp[ci].docs[di]["valid"] = ok
@@ -716,15 +734,21 @@ def scan_decls(scan):
     return out
 
 
+def names_deduplicated(model_text, scan):
+    """an emitted type carries a numeric suffix the model does not give it (anyOf branch types are named <T>_<i> by the model too)"""
+    declared = set(line.split("|", 3)[1] for line in model_text.split("\n") if line)
+    return any(re.search(r"_\d+$", n) and n not in declared for n in scan_decls(scan))
+
+
 def decl_diff(model_text, scan):
     """None when every declaration of the model is emitted with the same fields / underlying type / method; else a description.
     A field may name another declared type than the model does when that type is declared with the same body (the generator re-uses the
     declaration made for a schema node it meets again through a shared pointer, e.g. an enum of an allOf member): the name table is outside
     the model, the shape is not."""
     impl = scan_decls(scan)
-    suffixed = any(re.search(r"_\d+$", n) for n in impl)
-    if suffixed:
+    if names_deduplicated(model_text, scan):
         return None          # type names were de-duplicated with suffixes (the name table across declarations is outside the model)
+    suffixed = False
     model = {}
     for line in model_text.split("\n"):
         if not line:
@@ -780,6 +804,259 @@ def decl_diff(model_text, scan):
             return "the model declares %s, the emitted code has no such type" % name
         if not same_line(want, got, 3):
             return "declaration of %s: model %r, emitted %r" % (name, want, got)
+    return None
+
+
+# ---------------------------------------------------------------- the plan tie: method bodies vs Model/Render.v plan lines
+_IDX = r"((?:\[i\d+\])*)"
+_FLD = r"plain(?:\.(\w+))?"
+
+
+def _num(text, kind):
+    """canonical numeral: integer kinds exactly, float kinds as the float64 the text denotes (printed as an exact fraction)"""
+    from fractions import Fraction as Fr
+    try:
+        if "/" in text:
+            a, b = text.split("/")
+            q = Fr(int(a), int(b))
+            if kind != "i":
+                q = Fr(float(q))
+        elif re.match(r"^-?\d+$", text):
+            q = Fr(int(text))
+            if kind != "i":
+                q = Fr(float(q))
+        else:
+            q = Fr(float(text))
+        return str(q)
+    except (ValueError, OverflowError, ZeroDivisionError):
+        return "?" + text
+
+
+def _msg_name(expr):
+    """"a" or fmt.Sprintf("a[%d]", i1) -> a"""
+    m = re.match(r'^fmt\.Sprintf\("(.*?)((?:\[%d\])*)"(?:, i\d+)*\)$', expr) or re.match(r'^"(.*)"()$', expr)
+    return m.group(1) if m else "?" + expr
+
+
+def plan_of_body(body, patterns=None):
+    """the canonical plan lines (Model/Render.v) read off one emitted Unmarshal method; text that carries a check or an assignment to
+    `plain` and fits no template is kept as a line '?...' (it then differs from whatever the model says)"""
+    # a raw string literal may span lines (a pattern with a line break): keep every statement on one line
+    flat, in_raw = [], False
+    for ch in body:
+        if ch == "`":
+            in_raw = not in_raw
+        flat.append("\u2424" if (in_raw and ch == "\n") else ch)
+    L = [l.strip() for l in "".join(flat).split("\n")]
+    out = ["W|%d" % (1 if any(l == "var raw map[string]interface{}" for l in L) else 0)]
+    nbranch = 0
+    i = 0
+    skip = (re.compile(r"^(\{|\}|return err|return nil|var raw map\[string\]interface\{\}|var plain \w+|var errs \[\]error|errs = append\(errs, err\)|"
+                       r"if err := (json\.Unmarshal|value\.Decode)\((value, )?&raw\); err != nil \{|\*j = \w+\(plain\)|for i\d+ := range plain[\w.\[\]]* \{|"
+                       r"st := reflect\.TypeOf\(\w+\{\}\)|for i := range st\.NumField\(\) \{|delete\(raw, .*\)|if plain[\w.]* != nil \{)$"))
+    while i < len(L):
+        l = L[i]
+        nxt = L[i + 1] if i + 1 < len(L) else ""
+        m = re.match(r'^if _, ok := raw\["(.*)"\]; raw != nil && !ok \{$', l)
+        if m:
+            e = re.match(r'^return fmt\.Errorf\("field (.*) in \w+: required"\)$', nxt)
+            out.append("R|" + m.group(1) if e and e.group(1) == m.group(1) else "?" + l + nxt)
+            i += 2
+            continue
+        if re.match(r"^var \w+ \w+$", l) and l != "var plain Plain" and not l.startswith("var plain "):
+            i += 1
+            continue
+        if re.match(r"^if err := \w+\.Unmarshal(JSON|YAML)\(value\); err != nil \{$", l):
+            nbranch += 1
+            i += 1
+            continue
+        m = re.match(r"^if len\(errs\) == (\d+) \{$", l)
+        if m:
+            out.append("Y|%s" % m.group(1) if int(m.group(1)) == nbranch and "all validators failed" in nxt else "?" + l)
+            i += 2
+            continue
+        if re.match(r"^type \w+ \w+$", l):
+            out.append("-")
+            i += 1
+            continue
+        if re.match(r"^if err := (json\.Unmarshal|value\.Decode)\((value, )?&plain\); err != nil \{$", l):
+            i += 1
+            continue
+        m = re.match(r'^if v, ok := raw\["(.*)"\]; !ok \|\| v == nil \{$', l)
+        if m:
+            a = re.match(r"^" + _FLD + r" = ", nxt)
+            out.append("D|%s|%s" % (a.group(1) or "", m.group(1)) if a else "?" + l + nxt)
+            i += 2
+            # the literal may span lines: skip to the closing brace of the if
+            depth = nxt.count("{") - nxt.count("}")
+            while i < len(L) and (depth > 0 or L[i] != "}"):
+                depth += L[i].count("{") - L[i].count("}")
+                i += 1
+            continue
+        m = re.match(r"^if " + _FLD + _IDX + r" != nil \{$", l)
+        if m and "must be null" in nxt:
+            e = re.match(r'^return fmt\.Errorf\("field %s: must be null", (.*)\)$', nxt)
+            out.append("N|%s|%d|%s" % (m.group(1) or "", m.group(2).count("["), _msg_name(e.group(1))) if e else "?" + l + nxt)
+            i += 2
+            continue
+        m = re.match(r"^if (plain[\w.]*(?:\[i\d+\])*) != nil && len\((plain[\w.]*(?:\[i\d+\])*)\) < (\d+) \{$", l)
+        if m:
+            e = re.match(r'^return fmt\.Errorf\("field %s length: must be >= %d", (.*), (\d+)\)$', nxt)
+            f = re.match(r"^" + _FLD + _IDX + "$", m.group(1))
+            ok = e and f and e.group(2) == m.group(3) and m.group(1) == m.group(2)
+            out.append("A|%s|%d|<|%s|%s" % (f.group(1) or "", f.group(2).count("["), m.group(3), _msg_name(e.group(1))) if ok else "?" + l + nxt)
+            i += 2
+            continue
+        m = re.match(r"^if len\(" + _FLD + _IDX + r"\) > (\d+) \{$", l)
+        if m and "length" in nxt:
+            e = re.match(r'^return fmt\.Errorf\("field %s length: must be <= %d", (.*), (\d+)\)$', nxt)
+            # an array limit names its field by a Sprintf or a plain literal; a string limit of a non-nillable field has the same shape:
+            # told apart by the type of the field below (plan_diff), here by nothing: both are written A/L-neutral as 'G'
+            out.append("G|%s|%d|>|%s|%s" % (m.group(1) or "", m.group(2).count("["), m.group(3), _msg_name(e.group(1))) if e and e.group(2) == m.group(3) else "?" + l + nxt)
+            i += 2
+            continue
+        m = re.match(r"^if len\(" + _FLD + r"\) < (\d+) \{$", l)
+        if m:
+            e = re.match(r'^return fmt\.Errorf\("field %s length: must be >= %d", "(.*)", (\d+)\)$', nxt)
+            out.append("L|%s|0|<|%s|%s" % (m.group(1) or "", m.group(2), e.group(1)) if e and e.group(2) == m.group(2) else "?" + l + nxt)
+            i += 2
+            continue
+        m = re.match(r"^if " + _FLD + r" != nil && len\(\*" + _FLD + r"\) ([<>]) (\d+) \{$", l)
+        if m:
+            e = re.match(r'^return fmt\.Errorf\("field %s length: must be ([<>])= %d", "(.*)", (\d+)\)$', nxt)
+            ok = e and m.group(1) == m.group(2) and e.group(3) == m.group(4) and {"<": ">", ">": "<"}[m.group(3)] == e.group(1)
+            out.append("L|%s|1|%s|%s|%s" % (m.group(1) or "", m.group(3), m.group(4), e.group(2)) if ok else "?" + l + nxt)
+            i += 2
+            continue
+        m = re.match(r"^if matched, _ := regexp\.MatchString\(`(.*)`, string\((\*?)" + _FLD + r"\)\); !matched \{$", l)
+        if m:
+            prev = L[i - 1] if i else ""
+            guarded = prev == "if plain%s != nil {" % ("." + m.group(3) if m.group(3) else "")
+            e = re.match(r'^return fmt\.Errorf\("field %s pattern match: must match %s", "(.*)", `(.*)`\)$', nxt)
+            ok = e and guarded == (m.group(2) == "*") and e.group(2) == m.group(1)
+            out.append("P|%s|%d" % (m.group(3) or "", 1 if guarded else 0) if ok else "?" + l + nxt)
+            if patterns is not None:
+                patterns.append(m.group(1).replace("\u2424", "\n"))
+            i += 2
+            continue
+        m = re.match(r"^if (?:" + _FLD + r" != nil && )?(\*?)" + _FLD + r"%(-?[\w.+]+) != 0 \{$", l)
+        if m:
+            e = re.match(r'^return fmt\.Errorf\("field %s: must be a multiple of %v", "(.*)", (.*)\)$', nxt)
+            g = m.group(2) == "*"
+            ok = e and (g == (m.group(1) is not None or l.startswith("if plain != nil"))) and (not g or (m.group(1) or "") == (m.group(3) or ""))
+            ok = ok and (("!= nil &&" in l) == g)
+            out.append("M|%s|%d|i|%s|%s" % (m.group(3) or "", 1 if g else 0, _num(m.group(4), "i"), e.group(1)) if ok else "?" + l + nxt)
+            i += 2
+            continue
+        m = re.match(r"^if (?:" + _FLD + r" != nil && )?math\.Abs\(math\.Mod\((\*?)" + _FLD + r", (-?[\w.+-]+)\)\) > 1e-10 \{$", l)
+        if m:
+            e = re.match(r'^return fmt\.Errorf\("field %s: must be a multiple of %v", "(.*)", (.*)\)$', nxt)
+            g = m.group(2) == "*"
+            ok = e and (("!= nil &&" in l) == g) and (not g or (m.group(1) or "") == (m.group(3) or ""))
+            out.append("M|%s|%d|f|%s|%s" % (m.group(3) or "", 1 if g else 0, _num(m.group(4), "f"), e.group(1)) if ok else "?" + l + nxt)
+            i += 2
+            continue
+        m = re.match(r"^if (?:" + _FLD + r" != nil && )?(-?[\w.+-]+) (<=|>=|<|>) (\*?)" + _FLD + r" \{$", l)
+        if m:
+            e = re.match(r'^return fmt\.Errorf\("field %s: must be (<=|>=|<|>) %v", "(.*)", (.*)\)$', nxt)
+            g = m.group(4) == "*"
+            ok = e and (("!= nil &&" in l) == g) and (not g or (m.group(1) or "") == (m.group(5) or ""))
+            if ok:
+                ok = _num(e.group(3), "f") == _num(m.group(2), "f")
+            out.append("B|%s|%d|-|%s|%s|%s|%s" % (m.group(5) or "", 1 if g else 0, m.group(3), _num(m.group(2), "f"), e.group(1), e.group(2)) if ok else "?" + l + nxt)
+            i += 2
+            continue
+        if l.startswith("if err := mapstructure.Decode(raw, &plain.AdditionalProperties)"):
+            out.append("X")
+            i += 1
+            continue
+        if skip.match(l) or not l:
+            i += 1
+            continue
+        if "Errorf" in l or re.match(r"^plain\b.* = ", l) or l.startswith("if "):
+            out.append("?" + l)
+        i += 1
+    # the frame around the checks: every decode failure is returned, the checked value is what is assigned at the end
+    K = [l for l in L if l and l not in ("{", "}")]
+    for j, l in enumerate(K):
+        if re.match(r"^if err := (json\.Unmarshal|value\.Decode|mapstructure\.Decode)\(.*\); err != nil \{$", l) and (j + 1 >= len(K) or K[j + 1] != "return err"):
+            out.append("?" + l + " not followed by return err")
+        if re.match(r"^if err := \w+\.Unmarshal(JSON|YAML)\(value\); err != nil \{$", l) and (j + 1 >= len(K) or K[j + 1] != "errs = append(errs, err)"):
+            out.append("?" + l + " not followed by the append")
+    tm = [re.match(r"^type (\w+) (\w+)$", l) for l in K]
+    tm = [m for m in tm if m]
+    if len(K) < 2 or K[-1] != "return nil" or not tm or K[-2] != "*j = %s(plain)" % tm[0].group(2) or ("var plain %s" % tm[0].group(1)) not in K \
+            or not any(re.match(r"^if err := (json\.Unmarshal\(value, |value\.Decode\()&plain\); err != nil \{$", l) for l in K):
+        out.append("?frame")
+    return out
+
+
+def _plan_canon(line):
+    """a model line in the spelling plan_of_body gives the same check"""
+    p = line.split("|")
+
+    def i64(text):
+        # int64(x) of a float64 outside the int64 range is the most negative int64 on amd64 (finding D56, C05-bound-beyond-int64):
+        # the model keeps the exact integer, the emitted constant is what the conversion gave
+        a, b = text.split("/")
+        return "%d/1" % (-2 ** 63) if b == "1" and not (-2 ** 63 <= int(a) < 2 ** 63) else text
+    if p[0] == "M":
+        p[4] = _num(i64(p[4]) if p[3] == "i" else p[4], p[3])
+    elif p[0] == "B":
+        p[5] = _num(i64(p[5]) if p[3] == "i" else p[5], "f")
+        p[3] = "-"          # the kind of a bound cannot be read off the emitted text (4.0 prints as 4)
+    return "|".join(p)
+
+
+def schema_patterns(s):
+    if isinstance(s, dict):
+        for k, v in s.items():
+            if k == "pattern" and isinstance(v, str):
+                yield v
+            else:
+                yield from schema_patterns(v)
+    elif isinstance(s, list):
+        for v in s:
+            yield from schema_patterns(v)
+
+
+def plan_diff(model_text, scan, schema=None):
+    """None when every method the model plans is emitted with exactly the model's checks in the model's order (both decoders); else a description"""
+    bodies = {}
+    for sc in scan.values():
+        bodies.update(sc.get("bodies", {}))
+    blocks, cur = {}, None
+    for line in model_text.split("\n"):
+        if not line:
+            continue
+        if line.startswith("T|"):
+            cur = blocks.setdefault(line[2:], [])
+            if cur:
+                cur = []          # the same declared type reached twice: the first plan stands
+            continue
+        if cur is not None:
+            cur.append(_plan_canon(line))
+    for name, want in blocks.items():
+        for wire in ("JSON", "YAML"):
+            body = bodies.get("*%s.Unmarshal%s" % (name, wire))
+            if body is None:
+                continue            # presence of the methods is the business of the declaration tie
+            pats = []
+            got = plan_of_body(body, pats)
+            if schema is not None:
+                # the residue of a pattern check: its text is the text of a `pattern` keyword of the schema, byte for byte
+                known = set(schema_patterns(schema))
+                odd = [x for x in pats if x not in known]
+                if odd:
+                    return "%s.Unmarshal%s tests the expression %r, the schema has %s" % (name, wire, odd[0], sorted(known)[:6])
+            # a maximum length on a non-nillable field reads the same for arrays and strings
+            norm = lambda ls: [re.sub(r"^A\|([^|]*)\|(\d+)\|>", r"G|\1|\2|>", re.sub(r"^L\|([^|]*)\|0\|>", r"G|\1|0|>", x)) for x in ls]
+            w, g = norm(want), norm(got)
+            # numerals of integer kind in the model are exact; the emitted text may be a float spelling of the same number
+            if w != g:
+                k = next((j for j in range(min(len(w), len(g))) if w[j] != g[j]), min(len(w), len(g)))
+                return "%s.Unmarshal%s: check %d is %r in the emitted method, %r in the model's plan" % (
+                    name, wire, k, g[k] if k < len(g) else "(nothing)", w[k] if k < len(w) else "(nothing)")
     return None
 
 
